@@ -16,15 +16,16 @@ MulMod(a, b, p) == IF b = 0 THEN 0 ELSE LET d == (2 * MulMod(a, b \div 2, p)) % 
 Signed(x, p) == IF 2 * x > p THEN x - p ELSE x
 \* offset and mask interval [lo, hi) per protocol, from Masking.tla with the recorded bound
 Off == CASE E.proto = "trunc" -> 2 ^ (E.l - 1) [] E.proto = "sgn" -> 2 ^ E.l [] E.proto = "lsb" -> 2 ^ E.l
-         [] E.proto = "tobits" -> 2 ^ E.bl [] E.proto = "mod" -> 2 ^ E.l - ((2 ^ E.l) % E.b) [] OTHER -> 0
+         [] E.proto = "tobits" -> 2 ^ E.bl [] E.proto = "mod" -> 2 ^ E.l - ((2 ^ E.l) % E.b) [] E.proto = "convert" -> 2 ^ (E.l - 1) [] OTHER -> 0
 Lo == CASE E.proto = "tobits" -> 1 - 2 ^ E.l [] E.proto = "mod" -> 1 - E.b [] OTHER -> 0
 Hi == CASE E.proto = "trunc" -> (2 ^ E.f) * E.bound [] E.proto = "sgn" -> (2 ^ E.l) * E.bound [] E.proto = "lsb" -> 2 * E.bound
-        [] E.proto = "tobits" -> (2 ^ E.l) * E.bound [] E.proto = "mod" -> E.b * E.bound [] OTHER -> 0
+        [] E.proto = "tobits" -> (2 ^ E.l) * E.bound [] E.proto = "mod" -> E.b * E.bound [] E.proto = "convert" -> E.d * E.bound [] OTHER -> 0
 ParamOK == CASE E.proto = "trunc" -> E.nbits = E.f /\ E.bound = 2 ^ (E.k + E.l - E.f)
              [] E.proto = "sgn" -> E.nbits = E.l /\ E.bound = 2 ^ E.k
              [] E.proto = "lsb" -> E.nbits = 1 /\ E.bound = 2 ^ (E.l + E.k - 1)
              [] E.proto = "tobits" -> E.nbits = E.l /\ E.bound = 2 ^ (E.bl + E.k - E.l)
              [] E.proto = "mod" -> E.bound = (2 ^ (E.k + E.l)) \div E.b + 1
+             [] E.proto = "convert" -> E.bound = (2 ^ (E.k + E.l)) \div E.d + 1        \* d contributions (subsets / dealers)
              [] OTHER -> TRUE
 Mask == Signed((E.c - E.a - Off) % E.p, E.p)
 ViewOK == IF E.proto = "zero" THEN (E.c = 0) <=> (E.a % E.p = 0)
